@@ -2,6 +2,7 @@ package main
 
 import (
 	"fmt"
+	"go/token"
 	"go/types"
 	"sort"
 	"strings"
@@ -56,7 +57,11 @@ func (ex *Exec) heapGet(st *State, name string, sort Sort) T {
 		ex.heapR.sorts[name] = sort
 		ex.heapR.order = append(ex.heapR.order, name)
 	}
-	c := ex.vc.constant(fmt.Sprintf("%s!e%d", sanitize(name), st.epoch), sort)
+	ep := st.epoch
+	if ex.P.immutHeaps[name] {
+		ep = 0 // immutable fields: one symbol for the whole function (writes to fresh objects go through heapSet)
+	}
+	c := ex.vc.constant(fmt.Sprintf("%s!e%d", sanitize(name), ep), sort)
 	return c
 }
 
@@ -80,9 +85,19 @@ func (ex *Exec) define(hint string, t T) T {
 
 // havocAll forgets every heap (opaque call).
 func (ex *Exec) havocAll(st *State, why string) {
+	keep := map[string]T{}
+	for h := range ex.P.immutHeaps {
+		if srt, ok := ex.heapR.sorts[h]; ok {
+			keep[h] = ex.heapGet(st, h, srt)
+		} else {
+			// not mentioned yet: pin its name under the old epoch lazily by registering it now
+			continue
+		}
+	}
 	ex.nepoch++
 	st.epoch = ex.nepoch
-	st.heaps = map[string]T{}
+	st.heaps = keep
+	ex.immutKept = true
 	// allocation watermark only grows
 	old := ex.ghostGet(st, "alloc")
 	n := ex.vc.fresh("alloc", SInt)
@@ -380,6 +395,10 @@ func (ex *Exec) store(st *State, l Loc, v T) error {
 // recordWrite feeds frame / lock-discipline obligations.
 func (ex *Exec) recordWrite(st *State, heap string, ref T) {
 	ex.heapWrites[heap] = true
+	if ex.P.immutHeaps[heap] && ex.con != nil {
+		ex.nimm++
+		ex.vc.oblige("immut", fmt.Sprintf("immut:%s:%s:%d", ex.conName(), heap, ex.nimm), st.guard, Gt(ref, ex.ghostGet(ex.entry, "alloc")), ex.pos(token.NoPos)).Note = "field declared immutable is written only on objects allocated by this call"
+	}
 	if ex.onWrite != nil {
 		ex.onWrite(st, heap, ref)
 	}
